@@ -92,11 +92,12 @@ ALL_REST = ["get", "create", "delete", "update", "partial_update", "batch_get", 
             "batch_update", "batch_partial_update", "get_all"]
 ENTITY_METHODS = {"get", "delete", "update", "partial_update"}
 
-def rest(names, paging_get_all=True, return_entity=(), coll=True):
+def rest(names, paging_get_all=True, return_entity=(), coll=True, params=None):
+    """params: {method name: [declared query parameters]} (Rest.li lets every method declare its own)"""
     out = []
     for n in names:
         out.append(method("REST_METHOD", n, onEntity=coll and n in ENTITY_METHODS, isPagingSupported=(n == "get_all" and paging_get_all),
-                          returnEntity=n in return_entity))
+                          returnEntity=n in return_entity, params=(params or {}).get(n, [])))
     return out
 
 def seg(name, key=None, keytype=None):
@@ -110,7 +111,7 @@ def resource(segments, schema, methods, ro=(), co=()):
 RESOURCES = [
     resource([seg("collStr", "collStrId", P("string"))], R("Ent"),
              rest(ALL_REST) + [
-                 method("FINDER", "search", params=[F("kw", P("string")), F("lim", P("int32"), optional=True)], isPagingSupported=True, metadata=R("Leaf"), **{"return": R("Ent")}),
+                 method("FINDER", "search", params=[F("kw", P("string")), F("lim", P("int32"), optional=True), F("zone", P("string"), optional=True)], isPagingSupported=True, metadata=R("Leaf"), **{"return": R("Ent")}),
                  method("FINDER", "plain", **{"return": R("Ent")}),
                  method("ACTION", "act", params=[F("x", P("int32")), F("leaf", R("Leaf"), optional=True)], **{"return": P("string")}),
                  method("ACTION", "noret"),
@@ -127,7 +128,14 @@ RESOURCES = [
     resource([seg("collCO", "collCOId", P("int64"))], R("Ent"), rest(["get", "create", "update", "partial_update", "batch_update"]), co=["created"]),
     resource([seg("collCK", "collCKId", R("CK"))], R("Leaf"),
              rest(["get", "create", "batch_get", "batch_update", "batch_partial_update", "batch_delete"])),
-    resource([seg("collTr", "collTrId", R("TrInt"))], R("Leaf"), rest(["get", "batch_get", "batch_delete"])),
+    # declared query parameters on rest methods: names sorting before and after the reserved `ids`, and only before it
+    resource([seg("collTr", "collTrId", R("TrInt"))], R("Leaf"), rest(["get", "batch_get", "batch_delete"], params={
+        "get": [F("view", P("string"), optional=True)],
+        "batch_get": [F("fields", P("string"), optional=True), F("viewer", P("string"), optional=True)],
+        "batch_delete": [F("fields", P("string"), optional=True)]})),
+    # a collection with collection-level methods only (no method takes an entity key)
+    resource([seg("collTop", "collTopId", P("int64"))], R("Leaf"), rest(["create", "get_all", "batch_get"]) + [
+        method("FINDER", "byTitle", params=[F("title", P("string")), F("author", P("string"), optional=True)], **{"return": R("Leaf")})]),
     resource([seg("collStr", "collStrId", P("string")), seg("subColl", "subCollId", P("int64"))], R("Leaf"), rest(["get", "batch_get"])),
     resource([seg("collStr", "collStrId", P("string")), seg("subSimple")], R("Leaf"), rest(["get", "update"], coll=False)),
     resource([seg("simple")], R("Ent"), rest(["get", "update", "partial_update", "delete"], coll=False) + [
